@@ -36,10 +36,11 @@ Print Assumptions C02_retry_stops_on_abort.
    failures > maxRetries or the max duration has elapsed, and then the layer is done and returns
    ExceededError{last result, last error} (or the last outcome itself with ReturnLastFailure) *)
 Theorem C02_retry_on_failure : forall cfg pos c r w,
-  let rs := get_rstate (ev_with_result w c KPolFailure pos r) pos in
+  let w0 := pause (ev_with_result w c KPolFailure pos r) (r_lsn_dur cfg) in   (* OnFailure logged, its listener has returned *)
+  let rs := get_rstate w0 pos in
   let failed := rs_failed rs + 1 in
   let exceeded := (negb (r_max_retries cfg =? -1) && (r_max_retries cfg <? failed))
-                  || (negb (r_max_duration cfg =? 0) && (r_max_duration cfg <? w_now w - w_start w)) in
+                  || (negb (r_max_duration cfg =? 0) && (r_max_duration cfg <? w_now w0 - w_start w0)) in
   get_rstate (snd (retry_on_failure cfg pos c r w)) pos = {| rs_failed := failed; rs_exceeded := exceeded |}
   /\ (exceeded = true -> pr_done (fst (retry_on_failure cfg pos c r w)) = true)
   /\ (exceeded = true -> r_return_last cfg = false ->
